@@ -128,7 +128,10 @@ ALL_MENU = (
     "ins:raise", "ins:probe", "ins:res", "ins:mkitem", "ins:mkchild", "ins:sync", "ins:iv", "ins:yempty", "ins:ynone",
     "wrap:try", "wrap:A", "wrap:N", "wrap:S0", "wrap:S1", "wrap:P0", "wrap:Xp", "wrap:Xr",
     "flush:raise", "flush:raiseB", "flush:new", "flush:setraise",
+    "leaf:dd", "ins:ddirty",
 )
+DD_ALTS = (("f", 1, "pos"), ("f", 1, "kw"), ("f", 1, "def"), ("f", 2, "pos"), ("g", 1, "pos"),
+           ("mx", 1, "pos"), ("mx", 1, "mix"), ("my", 1, "pos"), ("s", 1, "pos"), ("sx", 1, "def"))
 
 
 def variants(prog, menu):
@@ -252,6 +255,9 @@ def _block_variants(stmts, ctx, allow_shared, made_before):
         ins.append(("y", ("D", ())))
     if "ins:ynone" in menu:
         ins.append(("y", ("n",)))
+    if "ins:ddirty" in menu:
+        ins.append(("ddirty", "f", 1))
+        ins.append(("ddirty", "mx", 1))
     for g in range(n + 1):
         for s in ins:
             yield stmts[:g] + (s,) + stmts[g:], None
@@ -316,6 +322,9 @@ def _struct_variants(s, ctx, allow_shared, made, top):
         if "leaf:re" in menu:
             for j in range(made):
                 yield ("re", j), None
+        if "leaf:dd" in menu:
+            for a in DD_ALTS:
+                yield ("dd",) + a, None
         if "leaf:sh" in menu and allow_shared:
             if ctx["shared"]:
                 yield ("sh", 0), None
